@@ -89,7 +89,18 @@ def stage(chk, tier, seed, work, rnd, only=None):
     rej = int(0 in cbad.get("P_Partner", [])) + int(1 in cbad.get("P_Dist", []))
     if rej != 2:
         raise ModelError("coupling: negative controls: %d of 2 rejected %r" % (rej, cbad))
-    chk.cov["coupling_protocol"] = {"states_model_checked": res.distinct, "sequences_replayed": len(cases), "with_stale_reference": stale, "controls_rejected": rej}
+    # the same protocol at the grain of the parallel loop (decision / write / write, two threads): the per-node invariants survive
+    # every interleaving; StaleOnlyIfStolen / MutualNearestCoupled must NOT (if they did, the finer-grained model would not be finer)
+    rp = vlib.tlc(SPEC, "CouplingPar", "CouplingPar.cfg", timeout=1200)
+    chk.add_tlc("Contact/CouplingPar", rp)
+    if rp.is_violation:
+        chk.violation("design:couplingpar:" + ",".join(rp.violated), "TLC: spec/Contact/CouplingPar violates " + ",".join(rp.violated) + "\n" + rp.out[-2000:])
+    else:
+        vlib.tlc_expect_ok(rp, "CouplingPar")
+    rb = vlib.tlc(SPEC, "CouplingPar", "CouplingParBroken.cfg", timeout=1200)
+    if not (rb.is_violation and set(rb.violated) & {"StaleOnlyIfStolen", "MutualNearestCoupled"}):
+        raise ModelError("CouplingPar: the expected counterexample to StaleOnlyIfStolen / MutualNearestCoupled under interleaving was not found")
+    chk.cov["coupling_protocol"] = {"states_model_checked": res.distinct, "sequences_replayed": len(cases), "with_stale_reference": stale, "controls_rejected": rej, "interleaved_states": rp.distinct}
     chk.cov["states"] += n
     chk.cov["transitions"] += n
     return n
